@@ -25,6 +25,8 @@
 EXTENDS Integers, Sequences, FiniteSets, TLC, Json, RemotePickleProps
 
 CONSTANTS Scns, Algo, SeedCopyreg,
+          SharedCtx,  \* the load context is one object for the whole process instead of a threading.local (FALSE = as written)
+          CtxCopy,    \* context(extra_kwargs) is a (shallow) copy of the caller's dictionary (TRUE = as written)
           InitGuard   \* context.__init__ refuses to start when the thread-local still has a stack (FALSE = the code as written)
 
 VARIABLES scn,                        \* the scenario (never changes)
@@ -92,7 +94,8 @@ ImplPath(kind, optin) ==
 NoEx == <<>>
 K == IF scn.t = "graph" THEN Len(scn.loads) ELSE 0
 LoadOf(e) == IF e <= K THEN scn.loads[e] ELSE scn.loads[e - K]
-Thr(e) == IF e <= K THEN LoadOf(e).thr ELSE 2 + (e - K)
+\* which context record a load uses: its thread's (threading.local), or the only one there is (SharedCtx)
+Thr(e) == IF SharedCtx THEN 1 ELSE IF e <= K THEN LoadOf(e).thr ELSE 2 + (e - K)
 NG == IF scn.t = "graph" THEN Len(scn.g) ELSE 0
 ViaTok == IF scn.op = "rp" /\ scn.remote THEN "R" ELSE "L"
 \* do opt-in instances go through remote_reduce?  remote=True: always (dyn_dispatch_table asks
@@ -311,6 +314,8 @@ Step(e) ==
   /\ LET L == LoadOf(e)  p == ex[e].pos IN
      \* the stream ends after L.at events / names a class that cannot be imported (before any event)
      IF L.fail \in {"trunc", "noclass"} /\ p - 1 = L.at /\ L.at <= Len(ops) THEN Fail(e, "raised:injected") /\ UNCHANGED tl
+     \* another load deleted stack / iter meanwhile (only possible when the context is shared between threads)
+     ELSE IF ~tl[Thr(e)].has THEN Fail(e, "raised:AttributeError") /\ UNCHANGED tl
      ELSE IF p > Len(ops) THEN (IF Algo = "asis" THEN ExitAsIs(e) ELSE ExitFixed(e))
      ELSE IF ops[p].op = "R" THEN (IF Algo = "asis" THEN ReduceAsIs(e, ops[p]) ELSE ReduceFixed(e, ops[p]))
      ELSE (IF Algo = "asis" THEN BuildAsIs(e, ops[p]) ELSE BuildFixed(e, ops[p]))
@@ -330,16 +335,23 @@ Terminal == pc = "done"
 Refs(ent) == {j \in 1..NG : \E k \in DOMAIN ent : ent[k] = "n:" \o NatStr(j)}
 RECURSIVE ReachFrom(_, _)
 ReachFrom(S, rest) == LET S2 == S \cup UNION {Refs(rest[i]) : i \in S} IN IF S2 = S THEN S ELSE ReachFrom(S2, rest)
-ExObs(e) == IF ex[e].out # "ok" THEN [outcome |-> ex[e].out, top |-> "none", nodes |-> <<>>, ss |-> <<>>]
+\* residue in the CALLER's patch dictionary: child_restored stores the restored child in its parent's patch dict.
+\* As written the context is a shallow copy of the caller's dict, so only nested dicts (paths of length >= 2) are
+\* the caller's objects; without the copy the top level is too; the corrected design copies every level.
+ResidueFrom == IF Algo = "fixed" THEN 99 ELSE IF CtxCopy THEN 2 ELSE 1
+Pres(e) == IF \E m \in ex[e].pm : Len(m.p) >= ResidueFrom THEN "F" ELSE "T"
+ExObs(e) == IF ex[e].out # "ok" THEN [outcome |-> ex[e].out, top |-> "none", nodes |-> <<>>, ss |-> <<>>, pres |-> Pres(e)]
             ELSE LET rs == ReachFrom({1}, ex[e].rest) IN
                  [outcome |-> "ok", top |-> "n:1",
                   nodes |-> [i \in 1..NG |-> IF i \in rs THEN ex[e].rest[i] ELSE [x \in {"#"} |-> "unreached"]],
-                  ss |-> [i \in 1..NG |-> IF i \in rs THEN ex[e].ssn[i] ELSE 0]]
+                  ss |-> [i \in 1..NG |-> IF i \in rs THEN ex[e].ssn[i] ELSE 0], pres |-> Pres(e)]
 StdRest == [i \in 1..NG |-> BaseEnt(scn, i, "L")]
+\* the loads() calls without patches and without injected failure: each of them must equal pickle's round trip
+PlainGood == {k \in 1..K : scn.loads[k].patch = <<>> /\ scn.loads[k].fail = "none"}
 GraphObs == [dump |-> "ok", gs |-> gs,
              loads |-> [k \in 1..K |-> ExObs(k)], fresh |-> [k \in 1..K |-> ExObs(K + k)],
-             equal_to_pickle |-> IF scn.op # "rp" \/ scn.loads[K].patch # <<>> \/ scn.loads[K].fail # "none" THEN "na"
-                                 ELSE IF ex[K].out = "ok" /\ ex[K].rest = StdRest THEN "T" ELSE "F"]
+             equal_to_pickle |-> IF scn.op # "rp" \/ K \notin PlainGood THEN "na"
+                                 ELSE IF \A k \in PlainGood : ex[k].out = "ok" /\ ex[k].rest = StdRest THEN "T" ELSE "F"]
 Obs == CASE scn.t = "cls"  -> [created |-> created, outcome |-> res0.outcome, gslog |-> res0.gslog, equal_to_pickle |-> res0.eq]
          \* proto_same (soft): the stream has the protocol pickle.dumps produces for the same protocol argument
          [] scn.t = "leaf" -> [outcome |-> res0.outcome, equal_to_pickle |-> res0.eq, proto_same |-> "T"]
@@ -362,6 +374,7 @@ Inv_C14_ViaSetstate   == Terminal => C14_ViaSetstate(Rec)
 Inv_C15_Delivery      == Terminal => C15_Delivery(Rec)
 Inv_C15_OnlyAddressed == Terminal => C15_OnlyAddressed(Rec)
 Inv_C15_Independent   == Terminal => C15_Independent(Rec)
+Inv_C15_NoResidue     == Terminal => C15_NoResidue(Rec)
 \* thread-locals: whatever one load leaves behind, the next context starts from the same state
 Inv_FreshStart == \A e \in 1..(2 * K) : (pc = "load" /\ ex[e].st = "run" /\ ex[e].pos = 1) =>
                      (tl[Thr(e)].unused /\ tl[Thr(e)].has /\ Len(tl[Thr(e)].stack) <= 1)
@@ -373,6 +386,7 @@ AsIs_C13_RemoteFalseIsStd     == Terminal => (C13_RemoteFalseIsStd(Rec) \/ Known
 AsIs_C14_LoadsSucceeds == (Terminal /\ scn.t = "graph") => (C14_LoadsSucceeds(Rec) \/ Known_C15(scn))
 AsIs_C15_Delivery      == (Terminal /\ scn.t = "graph") => (C15_Delivery(Rec) \/ Known_C15(scn))
 AsIs_C15_OnlyAddressed == (Terminal /\ scn.t = "graph") => (C15_OnlyAddressed(Rec) \/ Known_C15(scn))
+AsIs_C15_NoResidue     == (Terminal /\ scn.t = "graph") => (C15_NoResidue(Rec) \/ K_DeepPatch(scn))
 
 \* ---- witnesses: every antecedent / fault is reachable (W_x must be VIOLATED; WitDump names the reached ones) ----
 R_Warning      == Terminal /\ scn.t = "cls" /\ created = "raised:Warning"
@@ -382,6 +396,8 @@ R_StdOp        == Terminal /\ scn.t = "cls" /\ scn.op \in StdOps /\ Len(res0.gsl
 R_Copyreg      == Terminal /\ scn.t = "leaf" /\ scn.kind = "copyreg"
 R_LateCopyreg  == Terminal /\ scn.t = "leaf" /\ scn.kind = "copyreg_late" /\ res0.path = "copyreg"
 R_FailedThenLoad == pc = "load" /\ \E e \in 2..K : CanStart(e) /\ tl[Thr(e)].has /\ ex[e - 1].out = "raised:injected" /\ LoadOf(e).fail = "none"
+R_ParPlain     == pc = "load" /\ OptNodes(scn) = {} /\ K >= 2 /\ ex[1].st = "run" /\ ex[2].st = "run"
+R_Residue2     == Terminal /\ scn.t = "graph" /\ \E e \in 1..K : \E m \in ex[e].pm : Len(m.p) >= 2
 R_LowProto     == Terminal /\ scn.t = "leaf" /\ scn.pclass = "low" /\ scn.lowfails
 R_Siblings     == pc = "load" /\ \E t \in DOMAIN tl : Len(tl[t].stack) >= 3
 R_PatchDelivered == Terminal /\ scn.t = "graph" /\ \E e \in 1..K : ex[e].out = "ok" /\ ex[e].pm # {}
@@ -401,7 +417,7 @@ WitDump == /\ Wit("Warning", R_Warning) /\ Wit("DumpWarning", R_DumpWarning) /\ 
            /\ Wit("PatchDelivered", R_PatchDelivered) /\ Wit("Failure", R_Failure) /\ Wit("Residue", R_Residue)
            /\ Wit("Concurrency", R_Concurrency) /\ Wit("MemoGet", R_MemoGet) /\ Wit("StdPath", R_StdPath)
            /\ Wit("AfterFail", R_AfterFail) /\ Wit("Falsy", R_Falsy)
-           /\ Wit("FailedThenLoad", R_FailedThenLoad) /\ Wit("LateCopyreg", R_LateCopyreg) /\ Wit("LowProto", R_LowProto)
+           /\ Wit("FailedThenLoad", R_FailedThenLoad) /\ Wit("ParPlain", R_ParPlain) /\ Wit("NestedResidue", R_Residue2) /\ Wit("LateCopyreg", R_LateCopyreg) /\ Wit("LowProto", R_LowProto)
 
 \* ---- every terminal state as a case for the replay on the real code ----
 CaseDump == Terminal => PrintT(<<"CASE", ToJson(Rec)>>)
